@@ -56,7 +56,7 @@ CHECKS = {
         "complete family of 3-customer instances. Job shop: all job lists with <=3 jobs x <=2 operations, five rules, local search with "
         "every randrange/choice answer. solve_vrptw: RNG answers to 2 deviations and real seeds, objective recomputed independently.",
         note="Trusts: the invariant and objective re-implementation in checks/c18.py, ScriptedRandom menus (stated in evidence). "
-        "Bound: depth 3 (4), 3 customers, 2 vehicles; float menus of random() are a 5-value alphabet.",
+        "Bound: depth 3 (4), 3 customers, 2 vehicles (3 in one family), solve_vrptw also under caller-set objective weights (zero included) and progress stops; float menus of random() are a 5-value alphabet.",
         ref="2/C18",
     ),
     "C17": dict(
@@ -69,7 +69,7 @@ CHECKS = {
         "solve_cg, widths 3..6 for solve_bp, and every covering subset of <=3 maximal patterns as initial columns with an exact "
         "enumerating pricing function: every pattern fits, every demand is met, objective = rolls used >= true minimum, and "
         "OPTIMAL only at the true minimum.",
-        note="Trusts: BFS over demand vectors with all feasible patterns. Exceptions in custom mode are not judged. Bound: W <= 8 "
+        note="Trusts: BFS over demand vectors with all feasible patterns. Exceptions in custom mode are not judged. Bound: W <= 8 (two sizes up to W=16, three sizes with demands from {1,3,5} up to W=20 in blocks), also under max_iter / max_nodes / on_progress limits; "
         "(10 thorough), demands <= 3.",
         ref="2/C17",
     ),
@@ -113,7 +113,7 @@ CHECKS = {
         "every balanced supply vector over {-2..2} for network_simplex; all r x c cost matrices (r,c<=3) for solve_assignment. "
         "Integrality, pooled capacity, conservation, objective = cost of the returned flow = exact minimum, INFEASIBLE iff no "
         "feasible flow, agreement of the two solvers, termination.",
-        note="Trusts: brute-force enumeration of arc flows (<= 81 per network). Bound: <= 4 nodes, <= 4 arcs, capacities <= 2.",
+        note="Trusts: brute-force enumeration of arc flows (<= 81 per network). Bound: <= 4 nodes, <= 4 arcs, capacities <= 2; 5-node layered unit-capacity networks with <= 6 arcs for min_cost_flow; network_simplex also under max_iter 1..3; a slice over assorted node labels.",
         ref="2/C09",
     ),
     "C04": dict(
@@ -199,7 +199,7 @@ CHECKS = {
         "dampings for pagerank (callback and edge-list form), all graphs on <=5 nodes x 3 resolutions for louvain. Each answer "
         "is compared with the literal definition (delete and count components, iterated deletion, equation residual <= n*tol, "
         "recomputed modularity); louvain termination by fuel.",
-        note="Trusts: union-find component counting, the contraction bound for the PageRank residual. Bound: n <= 5 (6 thorough).",
+        note="Trusts: union-find component counting, the contraction bound for the PageRank residual. Bound: n <= 5 (6 thorough); slices over orderable tuple labels (fresh objects at every use).",
         ref="2/C15",
     ),
     "C14": dict(
@@ -211,7 +211,7 @@ CHECKS = {
         "neighbour orders, duplicate-neighbour lists, neighbours outside the declared node set, and complete blocks of the "
         "5-node space; the SCC partition, sinks-first order, topological order / INFEASIBLE verdict and the condensation "
         "(nodes, exact edge set) are compared with the definition computed from the reachability closure.",
-        note="Trusts: a bitmask transitive closure. Bound: n <= 5.",
+        note="Trusts: a bitmask transitive closure. Bound: n <= 5; a slice over labels of assorted hashable types (fresh objects at every use).",
         ref="2/C14",
     ),
     "C13": dict(
@@ -223,7 +223,7 @@ CHECKS = {
         "ordered duplicate-edge families; kruskal in 4 edge orders x allow_forest, prim from every start node and with string "
         "labels; tree-ness, membership of returned edges in the input multiset, objective = sum = exact minimum, and the "
         "INFEASIBLE / FEASIBLE-forest verdicts are checked in every case.",
-        note="Trusts: brute-force forest enumeration. Bound: n <= 5, integer weights.",
+        note="Trusts: brute-force forest enumeration. Bound: n <= 5, integer weights; None/falsy/tuple/float and big-int/long-string labels as fresh objects.",
         ref="2/C13",
     ),
     "C08": dict(
@@ -235,7 +235,7 @@ CHECKS = {
         "orders), all unit graphs with <=7 arcs on 5 and 6 nodes (the 6-node space holds the smallest inputs on which the pinned "
         "tree was wrong), ordered arc lists with parallel arcs, zero capacities and non-integer labels; the returned flow is "
         "checked for capacity, conservation, sink inflow = objective and objective = exact min cut.",
-        note="Trusts: max-flow/min-cut theorem and a 15-line subset-enumeration cut oracle. Bound: <=6 nodes, capacities <=2.",
+        note="Trusts: max-flow/min-cut theorem and a 15-line subset-enumeration cut oracle. Bound: <=6 nodes, capacities <=2; labels incl. None and equal-but-not-identical objects.",
         ref="2/C08",
     ),
     "C10": dict(
@@ -246,7 +246,7 @@ CHECKS = {
         text="Every matrix of the declared shapes/alphabets (all 3x3 over {-1,0,1,2}, all 2x2 and 1xk/kx1 over six values incl. "
         "1/2 and negatives, all 2x3..4x2, all 0/1 4x4, rotating complete blocks of 3x4/4x3) is solved for min and max and compared "
         "with the optimum over all injective assignments; matching shape, -1 convention and objective = sum are checked exactly.",
-        note="Trusts: itertools.permutations oracle. Bound: sizes <= 4x4 and the listed alphabets.",
+        note="Trusts: itertools.permutations oracle. Bound: sizes <= 4x4 and the listed alphabets (incl. {0, 2^-40, 1}: optimality is judged exactly in Fraction); ordered call pairs.",
         ref="2/C10",
     ),
     "C01": dict(
